@@ -43,14 +43,16 @@ type worker struct {
 	snap     *sql.Stmt
 }
 
-func (w *worker) reseed() {
+func (w *worker) reseed() (err error) {
 	w.env.Quiet(func() {
 		for _, st := range w.seed {
-			if _, err := st.Exec(); err != nil {
-				panic(fmt.Sprintf("reseed: %v", err))
+			if _, e := st.Exec(); e != nil {
+				err = fmt.Errorf("reseed: %v", e)
+				return
 			}
 		}
 	})
+	return
 }
 
 func newWorker() *worker {
@@ -70,7 +72,9 @@ func newWorker() *worker {
 			panic(err)
 		}
 	})
-	w.reseed()
+	if err := w.reseed(); err != nil {
+		panic(err)
+	}
 	rows, err := snapshot(e, w.snap)
 	if err != nil {
 		panic(err)
@@ -117,7 +121,13 @@ func (w *worker) exec(c Case) (res result) {
 	}
 	res.after = after
 	if rowsString(after) != w.pristStr {
-		w.reseed()
+		if rerr := w.reseed(); rerr != nil {
+			// the table cannot be restored (e.g. a cursor the call left open
+			// keeps it locked): report it for this case and continue on a
+			// fresh database
+			res.panicMsg += " RESEED: " + rerr.Error()
+			*w = *newWorker()
+		}
 	}
 	return
 }
@@ -420,6 +430,15 @@ func models(tier string) []ModelSpec {
 			variants(t, tier == "thorough")
 		}
 	}
+	// models whose data fields have a database-side default
+	out = append(out, ModelSpec{DBDefault: true})
+	for _, pos := range []int{0, 1} {
+		for _, tg := range []int{tgCreateOnly, tgUpdateOnly, tgNoWrite, tgReadOnly, tgIgnoreMigration} {
+			var t [4]int
+			t[pos] = tg
+			out = append(out, ModelSpec{Tags: t, DBDefault: true})
+		}
+	}
 	// shaped models: embedded base with re-declared (stricter) outer field,
 	// embedded struct with column prefix shadowing a Go field name, separate
 	// patch struct type as update value
@@ -660,6 +679,13 @@ func singlePatterns(m ModelSpec, tier string) [][4]int {
 }
 
 func enumerate(u unit, tier string, emit func(Case)) {
+	if u.m.DBDefault {
+		switch u.fin { // the create paths with struct values
+		case fCreate, fCreateBatches, fSaveNew, fSaveAbsent, fSaveSlice, fUpsertAll, fUpsertAllSlice:
+		default:
+			return
+		}
+	}
 	if u.m.Shape == shapePatch && u.fin != fUpdatesStruct && u.fin != fUpdatesStructPtr && u.fin != fUpdateColumnsStruct {
 		return // every other program is identical to the flat model
 	}
@@ -699,7 +725,7 @@ func enumerate(u unit, tier string, emit func(Case)) {
 	for _, f := range focus {
 		focusOnly[f] = vNonZero
 	}
-	if u.m.Shape != shapeFlat && tier != "thorough" {
+	if (u.m.Shape != shapeFlat || u.m.DBDefault) && tier != "thorough" {
 		// shaped models: data patterns only
 	} else if finIsSingle(u.fin) {
 		combos = append(combos, combo{none, [2]int{0, 1}}, combo{none, [2]int{1, 0}})
@@ -714,6 +740,13 @@ func enumerate(u unit, tier string, emit func(Case)) {
 	if finAllowsSkipHooksSession(u.fin) && (u.m.Shape == shapeFlat || tier == "thorough") {
 		sessions = []bool{false, true}
 	}
+	mixes := []bool{false}
+	if (u.fin == fCreateBatches || u.fin == fUpsertAllSlice || u.fin == fSaveSlice) && u.m == (ModelSpec{}) {
+		// (not for db_default models: SQLite has no DEFAULT keyword inside VALUES,
+		// so a slice mixing zero and non-zero values of such a field is rejected
+		// by the database - a dialect limit, not part of this property)
+		mixes = []bool{false, true} // slice rows with and without values
+	}
 	for _, s := range sels {
 		for _, cb := range combos {
 			for _, sp := range spells {
@@ -722,13 +755,15 @@ func enumerate(u unit, tier string, emit func(Case)) {
 						if sk && tg != tKey && tg != tCond {
 							continue
 						}
-						c := Case{Model: u.m, Fin: u.fin, Sel: s, Vals: cb.v, KeySpell: sp, Target: tg, TVals: cb.tv, SkipHooks: sk}.canon()
-						k := c.key()
-						if seen[k] {
-							continue
+						for _, mix := range mixes {
+							c := Case{Model: u.m, Fin: u.fin, Sel: s, Vals: cb.v, KeySpell: sp, Target: tg, TVals: cb.tv, SkipHooks: sk, RowMix: mix}.canon()
+							k := c.key()
+							if seen[k] {
+								continue
+							}
+							seen[k] = true
+							emit(c)
 						}
-						seen[k] = true
-						emit(c)
 					}
 				}
 			}
@@ -895,6 +930,7 @@ func main() {
 	run.Assume("differential rule: every map program (Create(map), Create(&[]map), upsert-from-map, Updates(map), Update, UpdateColumn, UpdateColumns(map)) is also run with its keys in the other spelling and must write the same cells, including the cells the absolute model leaves free; excluded: maps with a key for a field gorm ignores (-, -:all)")
 	run.Assume("model shapes: override = untagged embedded Base{F0..F3} plus an outer re-declaration (same Go name, same column) with <-:create/<-:update/<-:false/-> (outer = shortest path = effective field; ->:false, - and -:all are not enumerated as overriding tags because gorm lets a field without any permission not take over); prefix-shadow = flat model plus Aud{Fi} with embeddedPrefix aud_ (column aud_fi is not asserted on rows the program may write; a field-name spelled Select/Omit entry or map key Fi is ambiguous between fi and aud_fi, so only the hard core is asserted for fi then and the spelling-differential rule is skipped); patch-struct = Updates/UpdateColumns with a value of a different struct type P{F0..F3} with its own tags (a column is writable only if the model's field and P's field both allow it; the update-time cell is free because P has no update-time field)")
 	run.Assume("composite-key family (ckey.go): models K2(int,string), K2s(string,int), K3(int,string,int) on tables whose rows share every proper subset of key values; 16 targeting programs x every row / an absent key (slices: every pair, and row+absent) x {no condition, condition matching all rows, condition excluding the first keyed row}; only FULL keys are given (a value with some key columns zero is targeted differently by the update and delete paths and is left out); evaluations/distinct_nontrivial do not include these cases, they are counted in composite_key_*")
+	run.Assume("models with db_default: every data field also carries a database-side default tag (default:(expr)); they run the struct-valued create paths (Create, CreateInBatches, Save new/absent/slice, upsert UpdateAll struct/slice) ; slices whose odd rows carry zero values run on the untagged flat model only (SQLite rejects the DEFAULT keyword gorm renders for mixed rows of a db_default field); ->:false is not combined with db_default (gorm panics with a nil dereference in Scan and leaks the transaction when INSERT .. ON CONFLICT DO NOTHING RETURNING returns a column of a non-readable field: outside this property, reported separately); a zero value is left to the database (NULL: the table has no column default), UpdateAll does not rewrite such columns on conflict")
 	run.Assume("a Session{SkipHooks:true} chain is treated like the column-update methods (no refresh of update-time, update-time written only when selected or supplied)")
 	run.Finish(map[string]interface{}{
 		"evaluations":         st.total,
